@@ -38,7 +38,12 @@ def compare(ctx, cfg, pg, dim_max):
         try:
             for kind, dist in (('u', coal.sfs), ('f', coal.fsfs)):
                 real[kind] = dict(mean=np.array(dist.mean.data, dtype=float), var=np.array(dist.var.data, dtype=float),
-                                  cov=np.array(dist.cov.data, dtype=float), corr=np.array(dist.corr.data, dtype=float))
+                                  cov=np.array(dist.cov.data, dtype=float), corr=np.array(dist.corr.data, dtype=float),
+                                  m2=np.array(dist.m2.data, dtype=float))
+                # every combination of the two flags of SFSDistribution.moment at order 2 (per bin the two rewards are equal, so
+                # `permute` must not matter; `center` selects variance vs raw second moment)
+                real[kind]['flags'] = {(c, p): np.array(dist.moment(2, center=c, permute=p).data, dtype=float)
+                                       for c in (True, False) for p in (True, False)}
         except Exception as e:
             ctx.violation('exception:sfs', cfg=cfg, error=f'{type(e).__name__}: {e}')
             return
@@ -70,6 +75,13 @@ def compare(ctx, cfg, pg, dim_max):
             if not (abs(r['var'][i] - var[i]) <= 1e-6 * abs(m2[i]) + 1e-300):
                 ctx.violation(f'var:{kind}', cfg=cfg, kind=kind, bin=i, expected=var[i], observed=float(r['var'][i]), scale=m2[i])
                 break
+        for name, got, want in [('m2', r['m2'], m2)] + [(f'moment(2,center={c},permute={p})', v, var if c else m2)
+                                                         for (c, p), v in r['flags'].items()]:
+            for i in range(n + 1):
+                if len(got) != n + 1 or not (abs(got[i] - want[i]) <= 1e-6 * abs(m2[i]) + 1e-300):
+                    ctx.violation(f'second-moment-route:{kind}', cfg=cfg, kind=kind, route=name, bin=i, expected=want[i],
+                                  observed=float(got[i]) if len(got) == n + 1 else None, scale=m2[i])
+                    break
         sd = [math.sqrt(max(v, 0.0)) for v in var]
         bad = False
         # the element-wise routes get_cov / get_corr must give the same matrix entries
